@@ -47,10 +47,52 @@ def run(res, replay=None):
                 pts.append(p)
             k = min(n - 1, rng.choice([0, 1, 2, min(5, n - 1), n - 1, rng.below(n)]))
             cases.append({"kind": "knn", "cubic": cubic, "anchor": anchor, "width": width, "mcw": mcw, "k": k, "pts": pts})
-        ns = 80 if tier == "quick" else 800
+        # adversarial family for the ring-termination bound: anisotropic grid cells; P just below a face on a thin axis t, Q two cells away along t,
+        # A one (fat) cell away along f with |PQ| < |PA| < dist_to_face + cell width on f: the search may only stop after ring 2
+        ng, tries = (24 if tier == "quick" else 240), 0
+        while ng > 0 and tries < 20000:
+            tries += 1
+            w0 = rng.choice([1.0, 2.0, 0.37])
+            width = [w0 * rng.choice([1.0, 0.6, 2.3, 0.77]), w0 * rng.choice([1.0, 1.7, 0.6, 0.31]), w0 * rng.choice([1.0, 3.1, 0.45, 0.8])]
+            anchor = [rng.choice([0.0, 1.0, -2.5]) for _ in range(3)]
+            mcw = max(width) * rng.choice([0.26, 0.34, 0.21, 0.12])
+            cdim = [math.ceil(width[a] / mcw) for a in range(3)]
+            cw = [width[a] / cdim[a] for a in range(3)]
+            t, f_ = rng.below(3), rng.below(3)
+            if t == f_ or cdim[t] < 3 or cdim[f_] < 2 or cw[f_] < 1.1 * cw[t]:
+                continue
+            st, sf = rng.choice([1, -1]), rng.choice([1, -1])
+            dtf = cw[t] * rng.choice([0.01, 0.05, 0.002])
+            pq = dtf + cw[t] * 1.02
+            hi = min(dtf + cw[f_], 1.45 * cw[f_])
+            lo = max(pq, 0.55 * cw[f_])
+            if lo * 1.01 >= hi:
+                continue
+            pa = lo + (hi - lo) * rng.choice([0.5, 0.1, 0.9])
+            P = [anchor[a] + cw[a] * 0.5 for a in range(3)]                  # cell 0, centred
+            for a, sgn in ((t, st), (f_, sf)):
+                if sgn < 0:
+                    P[a] = anchor[a] + width[a] - cw[a] * 0.5              # last cell
+            P[t] = (anchor[t] + cw[t] - dtf) if st > 0 else (anchor[t] + width[t] - cw[t] + dtf)
+            Q = list(P)
+            Q[t] = P[t] + st * pq
+            A = list(P)
+            A[f_] = P[f_] + sf * pa
+            pts = [P, A, Q]
+            for _ in range(rng.range(1, 6)):
+                for _ in range(50):
+                    x = [anchor[a] + width[a] * rng.unit() * 0.999 for a in range(3)]
+                    if math.sqrt(sum((x[a] - P[a]) ** 2 for a in range(3))) > 2.5 * pa:
+                        pts.append(x)
+                        break
+            if len(pts) < 4 or any(not (anchor[a] <= p[a] < anchor[a] + width[a]) for p in pts for a in range(3)):
+                continue
+            ng -= 1
+            cases.append({"kind": "knn", "cubic": False, "family": "ringgap", "anchor": anchor, "width": width, "mcw": mcw, "k": rng.choice([1, 1, 2]), "pts": pts})
+        ns = 160 if tier == "quick" else 1600
         for i in range(ns):
             op = ["welzl", "epos6", "epos6s"][i % 3]
-            fam = rng.choice(["random", "single", "duplicates", "cospherical", "collinear", "random"])
+            fam = rng.choice(["random", "single", "duplicates", "cospherical", "collinear", "random", "origin", "origin"])
             n = 1 if fam == "single" else rng.range(2, 30)
             ctr = [rng.uniform(-3, 3) for _ in range(3)]
             pts = []
@@ -67,6 +109,14 @@ def run(res, replay=None):
                 else:
                     p = [ctr[a] + rng.uniform(-1, 1) for a in range(3)]
                 pts.append(p)
+            if fam == "origin":
+                # a point exactly at the origin (= centre of Sphere::EMPTY), all points distinct; half the time the origin is an extreme point of the set
+                n = rng.choice([2, 2, 3, 3, 4, 5, 8])
+                if rng.chance(0.5):
+                    op = "welzl"
+                octant = rng.chance(0.5)
+                pts = [[(rng.unit() * 2 + 0.01) if octant else rng.uniform(-1, 1) for _ in range(3)] for _ in range(n)]
+                pts[rng.below(n)] = [0.0, 0.0, 0.0]
             if fam == "duplicates" and n >= 2 and rng.chance(0.5):
                 pts = [list(pts[0]) for _ in range(n)]      # all coincident
             radii = [rng.choice([0.0, 0.1, rng.unit()]) for _ in range(n)]
